@@ -37,7 +37,7 @@ LANGS = ["py", "ts", "rs", "jl"]
 SLOTS_THOROUGH = {
     "nvars": [1, 2, 3],
     "untouched": ["no", "first", "last"],
-    "coef": ["one", "two", "half", "pname", "pcomp", "neg", "irr", "tiny", "third"],
+    "coef": ["one", "two", "half", "pname", "pcomp", "neg", "irr", "tiny", "third", "zero", "czero"],
     "derived": ["none", "one", "chain", "chain-ooo", "ratedep"],
     "ptype": ["float", "int"],
     "ia": [0, 1],
@@ -84,7 +84,7 @@ def build_model(c):
     coef = {
         "one": 1, "two": 2, "half": 0.5, "neg": -3, "pname": "kc",
         # measured coefficients: not a ratio of small integers, very small, a non-terminating binary fraction
-        "irr": 0.4321, "tiny": 0.0004, "third": 1 / 3,
+        "irr": 0.4321, "tiny": 0.0004, "third": 1 / 3, "zero": 0.0, "czero": Derived(fn=F.minus_self, args=["kc"]),
         "pcomp": Derived(fn=F.half_plus, args=["kc"]),
     }[c["coef"]]
     m.add_reaction("r_in", F.const_in, args=["kin"], stoichiometry={xs[0]: coef})
@@ -140,7 +140,7 @@ def generate(tier):
     for untr, nvars, free in it.product(range(2, 2 + len(F.EDGE_FNS)), slots["nvars"], slots["free"]):
         shapes.append({**base, "untr": untr, "nvars": nvars, "derived": "none", "free": free})
     # numeric coefficients of every kind (the quick product above carries only 1, 2 and 0.5)
-    for coef, nvars, untouched, derived, free in it.product(("neg", "irr", "tiny", "third"), (1, 2), ("no", "first"), ("none", "chain"), slots["free"]):
+    for coef, nvars, untouched, derived, free in it.product(("neg", "irr", "tiny", "third", "zero", "czero"), (1, 2), ("no", "first"), ("none", "chain"), slots["free"]):
         sh = {**base, "untr": 0, "coef": coef, "nvars": nvars, "untouched": untouched, "derived": derived, "free": free}
         if sh not in shapes:
             shapes.append(sh)
